@@ -2,7 +2,7 @@
 //@ props C01
 //@ kind P
 //@ def quick STRN=6
-//@ def thorough STRN=12
+//@ def thorough STRN=9
 //@ enforce XMLString_findAnyC
 //@ enforce XMLString_findAny
 //@ entry h_str_findany
